@@ -10,3 +10,13 @@ CHECKS['C09'] = dict(
          'directions, and the delegation chain of transpose. Together they imply the statement for every pitch/interval/direction.',
     note='Trusted: Python int arithmetic and dict lookup, the kpsa constant evaluator / affine normaliser. Not decided here: the string codec (C16).',
 )
+
+CHECKS['C11'] = dict(
+    category='other',
+    technique='constant evaluation of the hierarchy literal vs enum and README tree; root-lookup dataflow (deep-locator rule); set-algebra shape of valid/match; facade argument binding',
+    text='Decides, for all categories at once, that the hierarchy literal is a forest over exactly the enum members, equals the documented '
+         'tree, that no query reachable from the public API looks a caller-supplied category up at the root level only, that the recursive '
+         'helpers visit every child, and that valid/match/is_child have the closure(include) - closure(exclude) / reflexive shapes.',
+    note='Decides necessary structural clauses, not full functional correctness of the recursive helpers on all include/exclude pairs. '
+         'Trusted: CPython set/dict semantics, README parser (box-drawing block).',
+)
